@@ -31,8 +31,8 @@ type C09Case struct {
 
 func (c C09Case) canon() string { b, _ := json.Marshal(c.Recs); return string(b) }
 
-// recView is a deep copy of what a message reported before CoalesceMessages ran.
-type recView struct {
+// coRecView is a deep copy of what a message reported before CoalesceMessages ran.
+type coRecView struct {
 	typ  uint16
 	data map[string]string // nil: Data() failed
 	ms   int64
@@ -40,14 +40,14 @@ type recView struct {
 }
 
 type c09Run struct {
-	views    []recView
+	views    []coRecView
 	line     string // request for the model
 	ev       *aucoalesce.Event
 	obs      string
 	buildErr error
 }
 
-func copyMap(m map[string]string) map[string]string {
+func coCopyMap(m map[string]string) map[string]string {
 	out := make(map[string]string, len(m))
 	for k, v := range m {
 		out[k] = v
@@ -66,9 +66,9 @@ func runC09Impl(c C09Case) c09Run {
 	words = append(words, "coal", "run")
 	for _, m := range msgs {
 		words = append(words, coal.View(m))
-		v := recView{typ: uint16(m.RecordType), ms: m.Timestamp.UnixMilli(), seq: m.Sequence}
+		v := coRecView{typ: uint16(m.RecordType), ms: m.Timestamp.UnixMilli(), seq: m.Sequence}
 		if d, err := m.Data(); err == nil {
-			v.data = copyMap(d)
+			v.data = coCopyMap(d)
 		}
 		r.views = append(r.views, v)
 	}
@@ -79,7 +79,7 @@ func runC09Impl(c C09Case) c09Run {
 
 // ---- the property monitor -----------------------------------------------------------------
 
-var processKeys = map[string]func(*aucoalesce.Event) string{
+var coProcessKeys = map[string]func(*aucoalesce.Event) string{
 	"pid":       func(e *aucoalesce.Event) string { return e.Process.PID },
 	"ppid":      func(e *aucoalesce.Event) string { return e.Process.PPID },
 	"proctitle": func(e *aucoalesce.Event) string { return e.Process.Title },
@@ -88,30 +88,30 @@ var processKeys = map[string]func(*aucoalesce.Event) string{
 	"cwd":       func(e *aucoalesce.Event) string { return e.Process.CWD },
 }
 
-func hasKV(m map[string]string, k, v string) bool {
+func coHasKV(m map[string]string, k, v string) bool {
 	x, ok := m[k]
 	return ok && x == v
 }
 
-// located: the pair is present somewhere in the event (the property's list of places).
-func located(ev *aucoalesce.Event, k, v string) bool {
-	if hasKV(ev.Data, k, v) || hasKV(ev.User.IDs, k, v) || hasKV(ev.Data, "socket_"+k, v) {
+// coLocated: the pair is present somewhere in the event (the property's list of places).
+func coLocated(ev *aucoalesce.Event, k, v string) bool {
+	if coHasKV(ev.Data, k, v) || coHasKV(ev.User.IDs, k, v) || coHasKV(ev.Data, "socket_"+k, v) {
 		return true
 	}
-	if strings.HasPrefix(k, "subj_") && hasKV(ev.User.SELinux, k[5:], v) {
+	if strings.HasPrefix(k, "subj_") && coHasKV(ev.User.SELinux, k[5:], v) {
 		return true
 	}
 	if (k == "result" && ev.Result == v) || (k == "ses" && ev.Session == v) {
 		return true
 	}
-	if f, ok := processKeys[k]; ok && f(ev) == v {
+	if f, ok := coProcessKeys[k]; ok && f(ev) == v {
 		return true
 	}
 	if ev.Source != nil && ev.Source.IP == v {
 		return true
 	}
 	for _, p := range ev.Paths {
-		if hasKV(p, k, v) {
+		if coHasKV(p, k, v) {
 			return true
 		}
 	}
@@ -123,14 +123,14 @@ func located(ev *aucoalesce.Event, k, v string) bool {
 	return false
 }
 
-// warned: a warning naming the record type and key (or the record as a whole) is attached.
-func warned(classes map[string]bool, typ uint16, k string) bool {
+// coWarned: a warning naming the record type and key (or the record as a whole) is attached.
+func coWarned(classes map[string]bool, typ uint16, k string) bool {
 	t := strconv.Itoa(int(typ))
 	if classes["dup:"+coal.Hx(k)+":"+t] || classes["dup:"+coal.Hx("socket_"+k)+":"+t] {
 		return true
 	}
 	switch typ {
-	case tSOCKADDR:
+	case coTSOCKADDR:
 		return classes["sockaddr-nosyscall"]
 	case tEXECVE:
 		if classes["noargc"] || classes["badargc"] {
@@ -145,18 +145,18 @@ func warned(classes map[string]bool, typ uint16, k string) bool {
 	return false
 }
 
-func isOtherKind(typ uint16) bool {
-	return typ != tSYSCALL && typ != tPATH && typ != tSOCKADDR && typ != tEXECVE
+func coIsOtherKind(typ uint16) bool {
+	return typ != tSYSCALL && typ != tPATH && typ != coTSOCKADDR && typ != tEXECVE
 }
 
 // wellFormedC09 mirrors LA.Coalesce.WellFormed (Props/C09.lean): the groups the conservation
 // clause is claimed for.
-func wellFormedC09(recs []recView) bool {
+func wellFormedC09(recs []coRecView) bool {
 	if len(recs) <= 1 {
 		return true
 	}
 	nSys, nExec := 0, 0
-	var sys *recView
+	var sys *coRecView
 	for i := range recs {
 		switch recs[i].typ {
 		case tSYSCALL:
@@ -177,7 +177,7 @@ func wellFormedC09(recs []recView) bool {
 		if r.data == nil {
 			continue
 		}
-		if isOtherKind(r.typ) && !sysHasItems {
+		if coIsOtherKind(r.typ) && !sysHasItems {
 			if _, ok := r.data["items"]; ok {
 				return false
 			}
@@ -210,10 +210,10 @@ func wellFormedC09(recs []recView) bool {
 	return true
 }
 
-var modeTypeNames = map[uint64]string{0o100000: "file", 0o040000: "directory", 0o020000: "character-device",
+var coModeTypeNames = map[uint64]string{0o100000: "file", 0o040000: "directory", 0o020000: "character-device",
 	0o060000: "block-device", 0o010000: "named-pipe", 0o120000: "symlink", 0o140000: "socket"}
 
-func mapsEqual(a, b map[string]string) bool {
+func coMapsEqual(a, b map[string]string) bool {
 	if len(a) != len(b) {
 		return false
 	}
@@ -234,7 +234,7 @@ type c09Verdict struct {
 
 func (v c09Verdict) ok() bool { return len(v.Failing) == 0 }
 
-func monitorC09(views []recView, ev *aucoalesce.Event, obs string) c09Verdict {
+func monitorC09(views []coRecView, ev *aucoalesce.Event, obs string) c09Verdict {
 	var vd c09Verdict
 	fail := func(clause, detail string) {
 		for _, f := range vd.Failing {
@@ -302,7 +302,7 @@ func monitorC09(views []recView, ev *aucoalesce.Event, obs string) c09Verdict {
 		}
 		same := len(want) == len(ev.Paths)
 		for i := 0; same && i < len(want); i++ {
-			same = mapsEqual(want[i], ev.Paths[i])
+			same = coMapsEqual(want[i], ev.Paths[i])
 		}
 		if !same {
 			fail("paths", fmt.Sprintf("event.Paths has %d entries, the group has %d parsable PATH records (or their contents differ)", len(ev.Paths), len(want)))
@@ -316,7 +316,7 @@ func monitorC09(views []recView, ev *aucoalesce.Event, obs string) c09Verdict {
 			}
 			for _, k := range common.SortedKeys(r.data) {
 				v := r.data[k]
-				if located(ev, k, v) || warned(classes, r.typ, k) {
+				if coLocated(ev, k, v) || coWarned(classes, r.typ, k) {
 					continue
 				}
 				if compound && r.typ == tSYSCALL && k == "items" {
@@ -360,7 +360,7 @@ func monitorC09(views []recView, ev *aucoalesce.Event, obs string) c09Verdict {
 						labels[k[4:]] = v
 					}
 				}
-				if f.Mode != wantMode || f.UID != p["ouid"] || f.GID != p["ogid"] || !mapsEqual(labels, f.SELinux) {
+				if f.Mode != wantMode || f.UID != p["ouid"] || f.GID != p["ogid"] || !coMapsEqual(labels, f.SELinux) {
 					continue
 				}
 			}
@@ -376,7 +376,7 @@ func monitorC09(views []recView, ev *aucoalesce.Event, obs string) c09Verdict {
 					continue
 				}
 				vd.SelModes = append(vd.SelModes, c.mode)
-				want, known := modeTypeNames[c.mode&0o170000]
+				want, known := coModeTypeNames[c.mode&0o170000]
 				if c.mode >= 1<<16 { // not an st_mode value: the property does not say what its type is
 					known = false
 				}
@@ -386,7 +386,7 @@ func monitorC09(views []recView, ev *aucoalesce.Event, obs string) c09Verdict {
 			}
 			if !okType {
 				c := cands[0]
-				fail("objtype", fmt.Sprintf("summary.object.type=%q but the selected PATH record has mode %#o (%s)", ev.Summary.Object.Type, c.mode, modeTypeNames[c.mode&0o170000]))
+				fail("objtype", fmt.Sprintf("summary.object.type=%q but the selected PATH record has mode %#o (%s)", ev.Summary.Object.Type, c.mode, coModeTypeNames[c.mode&0o170000]))
 			}
 		}
 	}
@@ -460,7 +460,7 @@ func c09Tags(c C09Case, r c09Run) (bool, []string) {
 		for _, w := range r.ev.Warnings {
 			cl := coal.ClassifyWarning(w, nil)
 			if strings.HasPrefix(cl, "unknown:") {
-				cl = "unknown:" + firstWords(w.Error(), 4)
+				cl = "unknown:" + coFirstWords(w.Error(), 4)
 			} else if i := strings.IndexByte(cl, ':'); i > 0 && !strings.HasPrefix(cl, "parse:") {
 				cl = cl[:i]
 			}
@@ -503,13 +503,13 @@ func evalC09(ctx *Ctx, c C09Case, r c09Run, reply string, idx int) *common.Viola
 		// explained by a known finding, but model and code must still agree
 	}
 	if reply != r.obs {
-		return &common.Violation{Kind: "correspondence", Clause: "Model.Coalesce.coalesce disagrees with CoalesceMessages: " + firstDiff(r.obs, reply),
+		return &common.Violation{Kind: "correspondence", Clause: "Model.Coalesce.coalesce disagrees with CoalesceMessages: " + coFirstDiff(r.obs, reply),
 			Input: c, Impl: r.obs, Model: reply, Case: idx}
 	}
 	return nil
 }
 
-func firstWords(s string, n int) string {
+func coFirstWords(s string, n int) string {
 	f := strings.Fields(s)
 	if len(f) > n {
 		f = f[:n]
@@ -517,8 +517,8 @@ func firstWords(s string, n int) string {
 	return strings.Join(f, "_")
 }
 
-// firstDiff names the first field of the flattened event that differs.
-func firstDiff(a, b string) string {
+// coFirstDiff names the first field of the flattened event that differs.
+func coFirstDiff(a, b string) string {
 	fa, fb := strings.Split(a, ";"), strings.Split(b, ";")
 	for i := 0; i < len(fa) && i < len(fb); i++ {
 		if fa[i] != fb[i] {
@@ -795,7 +795,7 @@ func c09Family(ctx *Ctx) error {
 	{
 		var cases []C09Case
 		for m := uint32(0); m < 65536; m++ {
-			cases = append(cases, genModeCase(rng, m))
+			cases = append(cases, coGenModeCase(rng, m))
 		}
 		// count the cases in which mode m did reach the file summary (harness self-check)
 		for lo := 0; lo < len(cases) && !stop(); lo += 4096 {
@@ -818,53 +818,53 @@ func c09Family(ctx *Ctx) error {
 	// 3. every subset of companions, random orders
 	for rep := 0; rep < ctx.N(3, 40) && !stop(); rep++ {
 		for mask := 0; mask < 64; mask++ {
-			kinds := subsetKinds(rng, mask)
+			kinds := coSubsetKinds(rng, mask)
 			if rep > 0 {
-				kinds = permKinds(rng, kinds)
+				kinds = coPermKinds(rng, kinds)
 			}
-			add(genGroup(rng, kinds, 0.25, 0.06), "subsets")
+			add(coGenGroup(rng, kinds, 0.25, 0.06), "subsets")
 		}
 	}
 	// 4. key collisions between every pair of record kinds
-	for a := 0; a < nKinds && !stop(); a++ {
-		for b := 0; b < nKinds; b++ {
-			if a == kSyscall && b == kSyscall {
+	for a := 0; a < coNKinds && !stop(); a++ {
+		for b := 0; b < coNKinds; b++ {
+			if a == coKSyscall && b == coKSyscall {
 				continue
 			}
-			keys := hotKeys
+			keys := coHotKeys
 			if !ctx.Thorough() {
 				keys = nil
 				for i := 0; i < 8; i++ {
-					keys = append(keys, pick(rng, hotKeys))
+					keys = append(keys, coPick(rng, coHotKeys))
 				}
 			}
 			for _, k := range keys {
-				add(genCollision(rng, a, b, k), "collisions")
+				add(coGenCollision(rng, a, b, k), "collisions")
 			}
 		}
 	}
 	// 5. single records of every type
 	for rep := 0; rep < ctx.N(1, 10) && !stop(); rep++ {
-		for _, t := range append(append([]uint16{}, otherTypes...), tSYSCALL, tPATH, tEXECVE, tSOCKADDR) {
-			add(genSingle(rng, t), "singles")
+		for _, t := range append(append([]uint16{}, coOtherTypes...), tSYSCALL, tPATH, tEXECVE, coTSOCKADDR) {
+			add(coGenSingle(rng, t), "singles")
 		}
 	}
 	// 6. random groups, edited caches, malformed groups
-	for i := 0; i < ctx.N(6000, 250000) && !stop(); i++ {
+	for i := 0; i < ctx.N(6000, 1200000) && !stop(); i++ {
 		switch {
 		case i%10 < 5:
-			add(genGroup(rng, permKinds(rng, subsetKinds(rng, rng.Intn(64))), 0.35, 0.08), "random_groups")
+			add(coGenGroup(rng, coPermKinds(rng, coSubsetKinds(rng, rng.Intn(64))), 0.35, 0.08), "random_groups")
 		case i%10 < 8:
-			c := genGroup(rng, permKinds(rng, subsetKinds(rng, rng.Intn(64))), 0.3, 0.05)
+			c := coGenGroup(rng, coPermKinds(rng, coSubsetKinds(rng, rng.Intn(64))), 0.3, 0.05)
 			if rng.Intn(4) == 0 {
-				c = genSingle(rng, otherTypes[rng.Intn(len(otherTypes))])
+				c = coGenSingle(rng, coOtherTypes[rng.Intn(len(coOtherTypes))])
 			}
-			addEdits(rng, &c)
+			coAddEdits(rng, &c)
 			add(c, "edited")
 		default:
-			c := genMalformed(rng)
+			c := coGenMalformed(rng)
 			if rng.Intn(3) == 0 {
-				addEdits(rng, &c)
+				coAddEdits(rng, &c)
 			}
 			add(c, "malformed")
 		}
